@@ -28,7 +28,7 @@ class Rec2:
     def call(self, m, p, explicit_outlen=False):
         e = dict(op='call', m=B(m), par=p, raised='', out=[])
         try:
-            r = self.o(m, **kwargs(self.b, p, explicit_outlen)); e['out'] = B(r) if isinstance(r, (bytes, bytearray)) else [-1]
+            r = self.o(m, **kwargs(self.b, p, explicit_outlen)); e['out'] = B(r) if isinstance(r, bytes) else [-1]
         except Exception as ex: e['raised'] = type(ex).__name__
         self.ev.append(e); return e
     def init(self, p, explicit_outlen=False):
@@ -39,7 +39,7 @@ class Rec2:
     def update(self, m, padding=False):
         e = dict(op='update', m=B(m), padding=bool(padding), raised='', out=[])
         try:
-            r = self.o.update(m, padding=padding); e['out'] = B(r) if isinstance(r, (bytes, bytearray)) else [-1]
+            r = self.o.update(m, padding=padding); e['out'] = B(r) if isinstance(r, bytes) else [-1]
         except Exception as ex: e['raised'] = type(ex).__name__
         e['bitcnt'] = self.bitcnt()
         self.ev.append(e); return e
